@@ -70,6 +70,7 @@ class Profile:
         self.wide_consts = 0.15        # constants >= 2^24 or negative
         self.empty_prob = 0.1          # a block / scope / loop / branch / macro body with no statement at all
         self.lead_reloc = 0.04         # the program starts with @= instead of *=
+        self.org_here = 0.15           # `*=` to a label defined right before it (the current address)
         self.pos_expr = 0.35           # *= / @= targets inside macro bodies and loops that depend on a parameter / the loop variable
         for k, v in kw.items():
             if not hasattr(self, k):
@@ -598,7 +599,16 @@ class ProgGen:
                     out.append({"k": "const", "n": name, "e": wide if wide is not None else self.value_expr(gs, params=gs.kind == "macro"), "eager": False})
                     gs.eq.append(name)
             elif k == "org":
-                out.append({"k": "org", "a": self.position(gs, self.rom_address(), 0.85)})
+                if self.p.org_here and not self.in_ram and rng.random() < self.p.org_here:
+                    # a move to where the program already is `here: *=here` -- after an @= this ends the
+                    # relocation and goes on storing at the mapped offset of the address the code was running at
+                    self.n_label += 1
+                    name = f"lb_p{self.n_label}"
+                    out.append({"k": "label", "n": name})
+                    # (exactly there: label + n could leave the bank window)
+                    out.append({"k": "org", "a": ["id", name] if rng.random() < 0.7 else ["bin", "+", ["id", name], ["lit", 0, "d"]]})
+                else:
+                    out.append({"k": "org", "a": self.position(gs, self.rom_address(), 0.85)})
                 self.in_ram = False
             elif k == "reloc_rom":
                 out.append({"k": "reloc", "a": self.position(gs, self.rom_address(), 0.85)})
